@@ -12,6 +12,7 @@ CONSTANTS
   Filters <- TFilters
   SubFilters <- TFilters
   Strategy = "RoundRobin"
+  Strict = TRUE
   NetCid <- TNetCid
   NetClean <- TClean
   NetWill <- TNoWill
